@@ -49,6 +49,8 @@ def run(ctx):
         ctx.guard(prefix, ctx, cfg, fs)
         ctx.guard(adjacent_scope, ctx, cfg, fs)
         ctx.guard(leftmost, ctx, cfg, fs)
+        import consumers
+        ctx.guard(c08.keep_only, ctx, lambda: consumers.primitives(ctx, cfg, fs, 'W.window'), lambda o: o.key in ('get:guarded', 'ArgsIter::next:guarded'), 'W.window')
         ctx.guard(c08.keep_only, ctx, lambda: c01.parsecon(ctx, cfg, fs), lambda o: 'adjacent:failfast' in o.key, 'F.failfast')
 
 def eval_scopes(b):
@@ -241,6 +243,20 @@ def adjacent_scope(ctx, cfg, fs):
             rngs.append(bool(s_) and all(q.kind == 'call' and q.call.is_(r'State::scope$') and q.path == ['start'] for q in s_))
     ctx.ob('S.adjacent_scope', 'adjacent_scope:first-foreign-item', both and fwd and len(pres) >= 2,
            'adjacent_scope scans forward and tests present() on both ledgers (%s): the window ends at the first item present in the attempt and before it' % sorted(srcs), where=b.where(), cfg=cfg)
+    # the window found is withheld (None) ONLY when it is the scope the attempt already ran on: an EMPTY window is a proposal like
+    # any other (`drink eat Fastfood`: the block of `drink` is empty and the retry on it is what lets the chain go on)
+    rsites = [i for i, k, st in b.stmts() if st['k'] == 'assign' and st['rv']['k'] == 'agg' and st['rv'].get('adt', '') == 'std::ops::Range']
+    eqs = [switch_on_call(b, c) for c in b.calls() if c.is_(r'PartialEq.*>::(eq|ne)$') and 'Range' in c.full]
+    eqs = [(s_, c_) for s_, c_ in zip(eqs, [c for c in b.calls() if c.is_(r'PartialEq.*>::(eq|ne)$') and 'Range' in c.full]) if s_ is not None and s_.kind == 'bool']
+    nones = [i for i, k, st in b.stmts() if st['k'] == 'assign' and st['rv']['k'] == 'agg' and st['rv'].get('variant') == 'None' and 'Range' in (b.local_ty(st['lhs'][0]) or '')]
+    leak = []
+    for r_ in rsites:
+        removed = [(s_.b, s_.target(c_.is_(r'::eq$'))) for (s_, c_) in eqs]
+        for n_ in nones:
+            if n_ in reachable_edges(b, r_) and n_ in reachable_edges(b, r_, removed_edges=removed):
+                leak.append(b.where(n_))
+    ctx.ob('S.adjacent_scope', 'adjacent_scope:withheld-only-when-unchanged', bool(rsites) and bool(eqs) and not leak,
+           'once a window has been found, None is returned only on the edge where the window equals the current scope (%d comparison(s)): %s' % (len(eqs), leak or 'ok'), where=b.where(), cfg=cfg)
     ctx.ob('S.adjacent_scope', 'adjacent_scope:window-starts-at-scope-start', bool(rngs) and all(rngs), 'the proposed window starts at the start of the current scope (%d range(s) built)' % len(rngs), where=b.where(), cfg=cfg)
 
 def leftmost(ctx, cfg, fs):
